@@ -594,6 +594,28 @@ func (env *TEnv) trCall(x *ECall) (TV, error) {
 			return TV{}, err
 		}
 		return TV{S("store", a.T, i.T, v.T), a.Ty}, nil
+	case "asptr": // asptr(x, *T): the pointer held by interface value x
+		if len(x.Args) != 2 {
+			return TV{}, fmt.Errorf("asptr(x, *T)")
+		}
+		a, err := env.tr(x.Args[0])
+		if err != nil {
+			return TV{}, err
+		}
+		ty, err := eng.evalType(env.pkg, exprTypeText(x.Args[1]))
+		if err != nil {
+			return TV{}, err
+		}
+		return TV{S("i-val", a.T), ty}, nil
+	case "iface": // iface(p): pointer p as an interface value of its dynamic type
+		a, err := env.tr(x.Args[0])
+		if err != nil {
+			return TV{}, err
+		}
+		if a.Ty == nil {
+			return TV{"(mk-iface 0 0)", types.NewInterfaceType(nil, nil)}, nil
+		}
+		return TV{Ite(S("=", a.T, "0"), "(mk-iface 0 0)", S("mk-iface", fmt.Sprint(eng.typeTag(a.Ty)), a.T)), types.NewInterfaceType(nil, nil)}, nil
 	case "arr": // backing array reference of a slice
 		a, err := env.tr(x.Args[0])
 		if err != nil {
@@ -1019,4 +1041,17 @@ func mapLenFact(vc *FuncVC, t *types.Map, m, lens, doms string) string {
 	ln := S("select", lens, m)
 	return Imp(Not(S("=", m, "0")), And(S("<=", "0", ln),
 		S("=", S("=", ln, "0"), fmt.Sprintf("(forall ((k!l %s)) (! (not (select (select %s %s) k!l)) :pattern ((select (select %s %s) k!l))))", ks, doms, m, doms, m))))
+}
+
+// exprTypeText renders an expression that denotes a type (*T, T, pkg.T) back to text.
+func exprTypeText(e Expr) string {
+	switch x := e.(type) {
+	case *EIdent:
+		return x.Name
+	case *EField:
+		return exprTypeText(x.X) + "." + x.Name
+	case *EUn:
+		return x.Op + exprTypeText(x.X)
+	}
+	return "?"
 }
